@@ -471,6 +471,46 @@ def task_scenarios(t):
     return {'viol': [v.to_json() for v in out[:6]], 'counts': {}, 'n': n}
 
 
+def activation_close_histories():
+    """A client that asked for a service to be started and closes abruptly while the start is in progress (the held message
+    outlives its sender), followed by each way the start can end."""
+    out = []
+    for first in (['call', 'X', 0], ['start', 'X', 0], ['fcall', 'X', 0]):
+        for second in (None, ['call', 'Y', 0], ['start', 'Y', 0]):
+            for end in (['take', 0], ['exit', 0, '1'], ['exit', 0, 'S'], ['advance', 11000], ['reload']):
+                for late_close in (0, 1):
+                    h = [first] + ([second] if second else [])
+                    h += ([['disc', 'X'], end] if not late_close else [end, ['disc', 'X']])
+                    out.append(h)
+    return out
+
+
+def task_activation_close(hists):
+    from . import c19
+    out = []
+    n = 0
+    for hist in hists:
+        case = {'activation_close': hist}
+        s = None
+        try:
+            s = c19.Session({'small': True})
+            for op in hist:
+                if op not in s.ops():
+                    break
+                s.apply(op)          # C19 judges what the waiting senders get; here only: the bus survives and keeps serving
+                n += 1
+            ser, rep = s.method('T', 'GetId', [])
+            if rep is None or rep.kind != R.MT_RETURN:
+                out.append(Violation('bus-stopped-serving', 'activation-abrupt-close', 'after %r a bystander\'s GetId was answered %r' % (hist, rep), case))
+        except HarnessDied as e:
+            out.append(crash_violation(e, case))
+            try:
+                s.died() if s is not None else worker_bus().h.close()
+            except Exception:
+                pass
+    return {'viol': [v.to_json() for v in out], 'n': n, 'steps': n}
+
+
 def _dispatch(t):
     fn, arg = t
     return fn(arg)
@@ -512,6 +552,9 @@ def build_tasks(tier):
         hseqs += list(itertools.product(range(9), repeat=3))
     for i in range(0, len(hseqs), 15):
         tasks.append((task_scenarios, ('histories', hseqs[i:i + 15])))
+    ah = activation_close_histories()
+    for i in range(0, len(ah), 6):
+        tasks.append((task_activation_close, ah[i:i + 6]))
     tasks.append((task_scenarios, ('broadcast-refusal',)))
     tasks.append((task_scenarios, ('auth-backlog',)))
     tasks.append((task_scenarios, ('storm',)))
@@ -543,7 +586,7 @@ def run(ctx):
         pool.close()
     ctx.coverage.update({
         'states': len(corpus()) * 3 + 4, 'transitions': n, 'traces_validated_against_impl': n,
-        'hostile_steps': n, 'mutation_steps_planned': nsteps, 'sasl_sequences': nseq,
+        'hostile_steps': n, 'mutation_steps_planned': nsteps, 'sasl_sequences': nseq, 'activation_abrupt_close_histories': len(activation_close_histories()),
         'bound': 'corpus of %d valid messages; every single-site corruption of each (registered hostile client), truncations followed by silence or close, selected mutations before Hello / before authentication; '
                  'SASL abuse: all sequences of <= %d of %d lines followed by message bytes; oversize claims; connection storm + auth timeout; flood of unread replies' % (len(corpus()), 2 if ctx.tier == 'quick' else 3, len(SASL)),
         'tasks': len(tasks), 'tasks_done': done,
@@ -555,6 +598,8 @@ def run(ctx):
 
 
 def replay(case):
+    if 'activation_close' in case:
+        return [Violation.from_json(v) for v in task_activation_close([case['activation_close']])['viol']]
     if 'step' in case:
         r = task_mutations([tuple(case['step'])])
         return [Violation.from_json(v) for v in r['viol']]
